@@ -677,7 +677,7 @@ MODEL_VALID_DTYPES = ("bool", "int8", "int16", "int32", "int64", "uint8", "uint1
 
 
 def run(ck: common.Check):
-    ck.prove(["GeffProps.C01"])
+    ck.prove(["GeffProps.C01", "GeffProps.C01ReadOpts"])
     # library tie: the dtype list hard-wired in GeffModel/WriteRead.lean (`validDtypes`) is the source's VALID_DTYPES
     from geff_spec._valid_values import VALID_DTYPES
     if tuple(VALID_DTYPES) != MODEL_VALID_DTYPES:
